@@ -13,6 +13,10 @@ CLAIMED = {
             "Static decision of DESIGN section 3 C33: every access to a shared executor field is under its mutex or a checked published-before-wake access; every predicate-changing write is "
             "followed by the right notify; initialize < execute < barrier(finish under lock) on every path; index striping shape; 2D pass flags; work-queue pop/execute/delete/complete pairing. "
             "Holds for every schedule because it holds on every path with a must-hold lockset; the triangle/square partition tables and general deadlock freedom are not decided."),
+    "C17": ("CONFINE (thread-local argument storage), WHOWRITES, accumulator effect-compare, mode agreement, task/executor COUPLING and dispatch REACHDEF on GeneralForceSubsystem.cpp",
+            "Static decision of DESIGN section 3 C17: in every multi-thread execute() only thread-local accumulators are written, shared arrays only in finish() (serialised by the executor, C33); "
+            "each accumulator merged is zeroed in initialize() of the same mode; the non-thread-safe task is always paired with a one-thread executor; dispatch counts and index mapping. "
+            "Holds for every schedule/thread count; floating-point summation order and user calcForce bodies are not decided."),
 }
 NA = {
  "C01": "numerical identity between O(n) recursions; no clause is visible in the shape of the code",
